@@ -49,6 +49,11 @@ RULE = ('corpus programs (snippets covering every node type, generated programs,
         'FOREIGN-RUN FAMILY (every run): runs (length 1-3, start / middle / end) of nodes of ANOTHER marked tree whose list the user '
         'reversed / shortened / lengthened / rotated there (pure AST) before splicing them into statement bodies, List / Tuple / Set '
         'elts, Dict pairs (slice-capable) and Call args, decorators, MatchSequence patterns (one by one): 405 scripts. '
+        'ARGUMENT-LAYOUT FAMILY (every run): every valid source order (length <= 4) of positional / *starred / keyword / **mapping '
+        'items of a Call and of a ClassDef x (keyword -> **, ** -> keyword, *x -> x, x -> *x). IDENTIFIER FAMILY (every run): 30 '
+        'identifier-bearing constructs (handler names, aliases, attributes, keywords, args, def / class names, targets, match '
+        'captures, global / nonlocal names, type variables) whose OLD identifier is a piece of the keywords / text around it '
+        '(`except OSError as s`), renamed. '
         'FOREIGN-PRIMITIVE FAMILY (every run): primitives edited in ANOTHER tree (1 -> True, 0 -> False / 0.0, 30 -> 30.0, True -> 1, '
         'renames, string changes; links stay intact) before a statement, a run of statements, a value expression or container '
         'elements of it are mixed in: 46 scripts; plus the random `foreign_conflate` mode. The two primitive comparison sites '
@@ -373,8 +378,154 @@ def _fprim_case(edit, splice):
             {'stmt': 'Module.body', 'run': 'Module.body', 'value': 'Assign.value', 'elts': 'List.elts'}[splice])
 
 
+# ---- deterministic family: identifier fields whose OLD text also occurs in the keywords / text around them -------------------
+
+IDENT_TEMPLATES = [
+    # (name, source with {N}, AST class, field, None | index in a list field)
+    ('handler_name', 'try:\n    pass\nexcept OSError as {N}:\n    pass', ast.ExceptHandler, 'name'),
+    ('handler_name_wide', 'try:\n    pass\nexcept  OSError   as   {N} :\n    pass', ast.ExceptHandler, 'name'),
+    ('handler_name_tight', 'try:\n    pass\nexcept(OSError)as {N}:\n    pass', ast.ExceptHandler, 'name'),
+    ('handlerstar_name', 'try:\n    pass\nexcept* OSError as {N}:\n    pass', ast.ExceptHandler, 'name'),
+    ('alias_asname', 'import mmm as {N}', ast.alias, 'asname'),
+    ('alias_name', 'import {N} as mmm', ast.alias, 'name'),
+    ('alias_from_asname', 'from mmm import nnn as {N}', ast.alias, 'asname'),
+    ('alias_from_name', 'from mmm import {N} as nnn', ast.alias, 'name'),
+    ('importfrom_module', 'from {N} import nnn', ast.ImportFrom, 'module'),
+    ('attribute_attr', 'qqq.{N} = 1', ast.Attribute, 'attr'),
+    ('attribute_attr_wide', 'qqq . {N} . zzz', ast.Attribute, 'attr'),
+    ('keyword_arg', 'fff(qqq, {N}=1)', ast.keyword, 'arg'),
+    ('keyword_arg_class', 'class CCC(QQQ, {N}=1): pass', ast.keyword, 'arg'),
+    ('arg_arg', 'def fff(ddd, {N}): pass', ast.arg, 'arg'),
+    ('arg_kwonly', 'def fff(*, {N}=1): pass', ast.arg, 'arg'),
+    ('arg_vararg', 'def fff(*{N}, **kkk): pass', ast.arg, 'arg'),
+    ('arg_lambda', 'lll = lambda mmm, {N}: 0', ast.arg, 'arg'),
+    ('funcdef_name', 'def {N}(): pass', ast.FunctionDef, 'name'),
+    ('asyncdef_name', 'async def {N}(): pass', ast.AsyncFunctionDef, 'name'),
+    ('classdef_name', 'class {N}: pass', ast.ClassDef, 'name'),
+    ('with_target', 'with www as {N}: pass', ast.Name, 'id'),
+    ('for_target', 'for {N} in fff: pass', ast.Name, 'id'),
+    ('comp_target', 'rrr = [0 for {N} in fff if iii]', ast.Name, 'id'),
+    ('named_target', 'if ({N} := fff): pass', ast.Name, 'id'),
+    ('matchas_name', 'match mmm:\n    case CCC() as {N}: pass', ast.MatchAs, 'name'),
+    ('matchstar_name', 'match mmm:\n    case [ccc, *{N}]: pass', ast.MatchStar, 'name'),
+    ('matchmapping_rest', 'match mmm:\n    case {{"k": vvv, **{N}}}: pass', ast.MatchMapping, 'rest'),
+    ('global_name', 'def ggg():\n    global lll, {N}', ast.Global, 'names'),
+    ('nonlocal_name', 'def ooo():\n    {N} = 0\n    def iii():\n        nonlocal {N}', ast.Nonlocal, 'names'),
+    ('typevar_name', 'def fff[TTT, {N}](): pass', ast.TypeVar, 'name'),
+]
+
+
+def _ident_names(template):
+    """identifiers that are substrings of the fixed text around the placeholder: every letter, and the 2-3 letter pieces of its
+    keywords (`as` is a keyword, `a` and `s` are not; `ex`, `exc`, `imp`, ...)"""
+    import keyword
+    fixed = template.replace('{N}', ' ')
+    words = set(w for w in __import__('re').findall(r'[A-Za-z_]+', fixed))
+    kw = sorted(w for w in words if keyword.iskeyword(w) or keyword.issoftkeyword(w))      # pieces of the keywords first
+    rest = sorted(w for w in words if w not in kw)
+    out = []
+    for k in (1, 2, 3):
+        for w in kw + rest:
+            for i in range(len(w) - k + 1):
+                c = w[i:i + k]
+                if c.isidentifier() and not keyword.iskeyword(c) and c not in ('_', 'match', 'case', 'type') and c not in words:
+                    out.append(c)
+    seen = []
+    for c in out:
+        if c not in seen:
+            seen.append(c)
+    return seen[:16]
+
+
+def _ident_case(tname, template, cls, field, old):
+    src = template.replace('{N}', old)
+
+    def fn(a, FST):
+        for n in ast.walk(a):
+            if type(n) is cls:
+                v = getattr(n, field, None)
+                if v == old:
+                    setattr(n, field, 'renamed')
+                    return
+                if isinstance(v, list) and old in v:
+                    v[v.index(old)] = 'renamed'
+                    return
+        raise RuntimeError('no site')
+
+    return (src, fn, f'{cls.__name__}.{field}')
+
+
+# ---- deterministic family: every source order of positional / starred / keyword / ** items of a Call and of a ClassDef -----------
+
+def _arg_layouts(maxlen=4):
+    """valid item sequences: p (positional), s (*starred), k (keyword), d (**mapping).  Rules of the grammar: no p after k or d,
+    no s after d."""
+    out = []
+
+    def go(seq):
+        if seq:
+            out.append(seq)
+        if len(seq) == maxlen:
+            return
+        for c in 'pskd':
+            if c == 'p' and ('k' in seq or 'd' in seq):
+                continue
+            if c == 's' and 'd' in seq:
+                continue
+            go(seq + c)
+
+    go('')
+    return out
+
+
+def _layout_src(seq, cls):
+    items = []
+    n = {'p': 0, 's': 0, 'k': 0, 'd': 0}
+    for c in seq:
+        i = n[c]
+        n[c] += 1
+        items.append({'p': f'pos{i}', 's': f'*star{i}', 'k': f'key{i}=val{i}', 'd': f'**map{i}'}[c])
+    body = ', '.join(items)
+    return f'class CCC({body}):\n    pass  # c\n' if cls else f'rrr = fff({body})  # c\n'
+
+
+def _layout_case(seq, cls, edit, j):
+    src = _layout_src(seq, cls)
+
+    def fn(a, FST):
+        n = a.body[0] if cls else a.body[0].value
+        args = n.bases if cls else n.args
+        kws = n.keywords
+        if edit == 'kw_none':          # k=v -> **v
+            [k for k in kws if k.arg is not None][j].arg = None
+        elif edit == 'kw_name':        # **m -> name=m
+            [k for k in kws if k.arg is None][j].arg = 'newkey'
+        elif edit == 'unstar':         # *s -> s
+            i = [i for i, x in enumerate(args) if isinstance(x, ast.Starred)][j]
+            args[i] = args[i].value
+        elif edit == 'star':           # p -> *p
+            i = [i for i, x in enumerate(args) if not isinstance(x, ast.Starred)][j]
+            args[i] = ast.Starred(args[i], ast.Load())
+
+    return (src, fn, ('ClassDef' if cls else 'Call') + {'kw_none': '.keywords', 'kw_name': '.keywords', 'unstar': '.args', 'star': '.args'}[edit])
+
+
 def _family():
     fam = {}
+    for seq in _arg_layouts():
+        for cls in (False, True):
+            for edit, c in (('kw_none', 'k'), ('kw_name', 'd'), ('unstar', 's'), ('star', 'p')):
+                for j in sorted({0, seq.count(c) - 1}) if seq.count(c) else []:      # first and last item of that kind
+                    if edit == 'star' and j > 0:
+                        continue
+                    fam[f'layout_{"class" if cls else "call"}_{seq}_{edit}{j}'] = _layout_case(seq, cls, edit, j)
+    for tname, template, cls, field in IDENT_TEMPLATES:
+        for old in _ident_names(template):
+            try:
+                ast.parse(template.replace('{N}', old))
+            except SyntaxError:
+                continue
+            fam[f'ident_{tname}_{old}'] = _ident_case(tname, template, cls, field, old)
     for edit in _fprim_edits():
         for splice in ('stmt', 'run', 'value'):
             fam[f'fprim_{edit}_{splice}'] = _fprim_case(edit, splice)
